@@ -14,6 +14,7 @@ import (
 	"os/exec"
 	"path/filepath"
 	"runtime"
+	"runtime/debug"
 	"sort"
 	"strconv"
 	"strings"
@@ -61,6 +62,7 @@ func main() {
 }
 
 func runShard(id string, args []string) int {
+	debug.SetMaxStack(256 << 20) // unbounded recursion in the code under test dies quickly, not after 1 GB
 	fs := flag.NewFlagSet("shard", flag.ExitOnError)
 	tier := fs.String("tier", "quick", "")
 	sub := fs.String("sub", "", "")
@@ -207,6 +209,19 @@ func runCheck(id string, args []string) int {
 					results[i] = r
 					return
 				}
+				if j.sub.CrashIsViolation && strings.Contains(errb.String(), "fatal error:") {
+					es := errb.String()
+					input := "(unknown)"
+					if k := strings.LastIndex(es, "CURRENT-INPUT: "); k >= 0 {
+						input = strings.SplitN(es[k+len("CURRENT-INPUT: "):], "\n", 2)[0]
+					}
+					fatal := es[strings.Index(es, "fatal error:"):]
+					r := report.New(id, j.sub.Name)
+					r.Executions = 1
+					r.AddViolation(report.Violation{Identity: "process-crash " + strings.SplitN(fatal, "\n", 2)[0], Message: "the process died with a Go runtime fatal error while handling input " + input + ":\n" + head(fatal, 1500), Params: map[string]any{"input": input}})
+					results[i] = r
+					return
+				}
 				errs[i] = fmt.Sprintf("sub %s shard %d: %v\n%s", j.sub.Name, j.shard, err, tail(errb.String(), 3000))
 				return
 			}
@@ -277,6 +292,13 @@ func runCheck(id string, args []string) int {
 	}
 	fmt.Printf("%s: wall=%.1fs exit=%d\n", id, wall, exit)
 	return exit
+}
+
+func head(s string, n int) string {
+	if len(s) > n {
+		return s[:n] + "..."
+	}
+	return s
 }
 
 func tail(s string, n int) string {
